@@ -1,7 +1,20 @@
 /-
   C13 — parsing with a format string inverts formatting with it.
-  Property statements only (specification: Spec/UnambiguousSpec.lean; helper lemmas:
-  Proofs/RoundTripL.lean, namespace `Chrono.Proofs.RoundTrip`).
+  Property statements only (specification: Spec/UnambiguousSpec.lean — `Unambiguous`, `expressible`,
+  `truncate_to_precision`; helper lemmas: Proofs/RoundTripL.lean, namespace `Chrono.Proofs.RoundTrip`).
+
+  What is proved here, for all values / texts / records (no sampling):
+  * the parser's numeric table is the one extracted from parse.rs on this run;
+  * `item_inverts_*`: literals, white space (any run of the 25 White_Space characters), the two-digit,
+    one-digit, day-of-year and century numeric items with every padding, month / weekday names and
+    AM/PM in any letter case — each consumes exactly its rendering and makes exactly its setter call;
+  * `items_invert` (induction over the item list), `case_and_space_perturbation`;
+  * `family_roundtrip_partial`: the round trip equals the resolution of the value's own fields.
+  Not proved (compared with the crate and checked by the round-trip oracle only): signed years
+  `%Y`/`%G`, `%s`, the fraction items, offsets `%z`/`%:z`, `%+`, and the final step through C14's
+  completeness theorems; see the docstring of `family_roundtrip_partial`.
+  Concrete parser runs cannot be closed by `decide`: `Scan.number` is defined by mutual (well-founded)
+  recursion, which the kernel does not unfold; the examples go through the theorems instead.
 -/
 import Chrono.Proofs.RoundTripL
 import Chrono.Spec.UnambiguousSpec
@@ -261,9 +274,9 @@ ok (truncate_to_precision is v)`): (1) deriving `hchain` from the syntactic `Spe
 items not covered by an `item_inverts_*` theorem yet (`%Y`/`%G` signed years, `%s`, the fraction items
 `%f %.f %.3f %.6f %.9f %3f %6f %9f`, the offsets `%z %:z`, a white-space item followed by a
 space-padded number); (2) `resolve T p' = ok (truncate …)`, which is C14's completeness
-(`Chrono.Props.C14.date_complete`, `time_complete`, `datetime_complete_fields` — on branch b-C14, not
-yet on main when this was written; their hypotheses `DateAgrees`/`TimeAgrees` have to be derived from
-the setter calls).  Until then this family is covered by the correspondence, by the round-trip oracle
+(`Chrono.Props.C14.date_complete`, `time_complete`, `datetime_complete_fields`; their hypotheses
+`DateAgrees`/`TimeAgrees`/`timestampIs` still have to be derived from the record the setter calls
+build, and the ISO-only and timestamp-only members are outside those theorems).  Until then this family is covered by the correspondence, by the round-trip oracle
 run on the implementation, and by the validation of the specification against the implementation
 (`pf.sp`). -/
 theorem family_roundtrip_partial (T : Target) (fmt : List Nat) (v : Value) (tks : List Tok) (p' : Parsed)
